@@ -268,6 +268,23 @@ TARGET_TREES = [
 ]
 
 
+VOL_TREES = [
+    T([L(0), L(1, 2)], vol=True),                                             # volatile root: encapsulated
+    T([T([L(0)], vol=True), T([L(1)])]),                                      # no merging with a volatile table
+    T([T([L(0), L(1)], r=3, vol=True), T([L(2), L(0), L(2), L(1)])]),         # a short volatile table is not unrolled
+    T([T([L(0)], r=2, vol=True), T([L(1)])]),                                 # lends one iteration: count becomes fixed
+    T([T([L(1)]), T([L(0)], r=3, vol=True)]),
+    T([T([L(0, 2), L(1, 3, vol=True)]), T([L(1), L(0), L(1), L(0)])]),        # split_one_child: fixed child preferred
+    T([T([L(0), L(1, 3, vol=True)]), T([L(1), L(0), L(1), L(0)])]),           # ... falls back to the volatile one
+    T([T([T([L(0), L(1)], vol=True)], r=2, meas=True), L(1)]),
+    T([T([T([L(0)])], r=2, vol=True), T([T([L(1)], vol=True)])]),             # merged counts: scaled property
+    T([T([T([L(0)], r=3, vol=True)], r=2, vol=True), T([L(1), L(2)])]),       # volatile * volatile: operation
+    T([T([T([T([L(0)], r=2, vol=True)], r=3, vol=True)], r=2, vol=True), T([L(1), L(2)], r=2)]),   # nested operation
+    T([T([T([L(0, 2, vol=True)])], r=0), L(1)]),                              # scaled by 0
+    T([T([L(0, 1, vol=True)]), T([L(0)]), T([L(0, 1, vol=True)])]),           # tables equal up to the volatile tags
+]
+
+
 def fam_compiled_twice(tier):
     """class (stateful): the SAME Loop object is compiled twice (TaborProgram restructures its argument in place: a
     program uploaded to two channel pairs, or again with other limits); the second compilation starts from whatever
@@ -280,6 +297,13 @@ def fam_compiled_twice(tier):
     for i, t in enumerate(TARGET_TREES):
         for j, (first, second) in enumerate(combos):
             if tier == 'quick' and (i + j) % 2:
+                continue
+            out.append(mk(t, std_wfs(), extra={'first': first}, **dict(STD_CFG, **second)))
+    # volatile counts: the first compilation merges (scaled / combined properties), lends iterations and splits
+    # children (counts become fixed); the read-back carries the property terms
+    for i, t in enumerate(VOL_TREES):
+        for j, (first, second) in enumerate(combos):
+            if tier == 'quick' and (i + j) % 3:
                 continue
             out.append(mk(t, std_wfs(), extra={'first': first}, **dict(STD_CFG, **second)))
     # repetition counts 0: the first compilation unrolls the 0-count nodes away (a node may be left without children
@@ -322,7 +346,135 @@ def fam_names(tier):
     return out
 
 
+def fam_same_source(tier):
+    """class (seed C16-5): ONE source channel id feeds BOTH analog outputs while the outputs differ in exactly one of
+    amplitude / offset / voltage transformation (or in all of them): anything computed once per SOURCE instead of once
+    per OUTPUT shows up as wrong codes on output B only.  Both modes, the shared source also used as a marker, a falsy
+    shared id (0), the shared source reached through a swap mapping"""
+    out = []
+    a = [(0, F(1, 8)), (16, F(-1, 8)), (40, F(1, 16)), (100, 0), (160, F(-1, 16)), (191, F(3, 32))]
+    b = [(0, F(-1, 16)), (7, F(1, 8)), (120, F(1, 32))]
+    ws = lambda: [wf(192, A=a, B=b), wf(208, A=b, B=a)]
+    same = dict(amps=['1', '1'], offs=['0', '0'], trafo=[['1', '0'], ['1', '0']])
+    diffs = [dict(amps=['1', '2']), dict(amps=['1/2', '1']), dict(offs=['0', '1/8']), dict(offs=['-1/8', '0']),
+             dict(trafo=[['1', '0'], ['-1', '0']]), dict(trafo=[['2', '0'], ['1', '0']]),
+             dict(trafo=[['1', '0'], ['1', '1/16']]),
+             dict(amps=['1', '16383/16384']),                                   # differs by one code near the ends only
+             dict(amps=['1/2', '2'], offs=['1/8', '-1/8'], trafo=[['1', '1/8'], ['-1', '0']])]
+    trees = [T([L(0), L(1, 2)]), T([T([L(0), L(1)], r=2), T([L(1), L(0)], r=3)])]
+    i = 0
+    for src in ('A', 'B'):
+        for d in diffs:
+            for ti, tree in enumerate(trees):
+                if tier == 'quick' and (i + ti) % 2:
+                    continue
+                out.append(mk(tree, ws(), channels=[src, src], markers=[None, None], min=2 if ti else 1, max=4 if ti else 16,
+                              **dict(same, **d)))
+            i += 1
+    for d in (diffs[0], diffs[2], diffs[4], diffs[8]):
+        out.append(mk(trees[0], ws(), channels=['A', 'A'], markers=['A', 'B'], **dict(same, **d)))
+        out.append(mk(trees[0], ws(), channels=['A', 'A'], markers=[None, None], extra={'names': {'A': 0}}, **dict(same, **d)))
+        out.append(mk(trees[0], ws(), channels=['B', 'B'], markers=[None, 'A'], extra={'chmap': {'A': 'B', 'B': 'A'}},
+                      **dict(same, **d)))
+    # control: same source AND same settings (must equal output A), and different sources with equal data
+    out.append(mk(trees[0], ws(), channels=['A', 'A'], markers=[None, None], **same))
+    out.append(mk(trees[0], [wf(192, A=a, B=a), wf(208, A=b, B=b)], channels=['A', 'B'], markers=[None, None],
+                  **dict(same, **diffs[8])))
+    return out
+
+
+def fam_repeats_vs_limits(tier):
+    """class (seed C16-6): the device limits count TABLE ENTRIES, not distinct waveforms / distinct tables: programs
+    whose pieces repeat (A,B,A,B,A: 5 entries, 2 distinct) with max_seq_len / min_seq_len placed between the number of
+    distinct pieces and the number of entries, in single mode (flat program), automatic mode and inside the sequencer
+    tables of advanced mode; the repeats are the same object, equal objects (two descriptions of one class), or the
+    same waveform with different counts"""
+    out = []
+    pats = ['ABABA', 'AAAA', 'ABAB', 'ABCABC', 'AAB'] if tier == 'quick' else \
+        ['ABABA', 'AAAA', 'ABAB', 'ABCABC', 'AAB', 'AA', 'ABA', 'ABCA', 'AABBAABB', 'ABCBA', 'AAAAAA']
+
+    def wfs3(twins):
+        ws = std_wfs()
+        if twins:          # description 3 is an equal copy of description 0 (same class, another object)
+            ws.append(wf(192, A=F(1, 4)))
+        return ws
+    for pat in pats:
+        n, d = len(pat), len(set(pat))
+        for mx in sorted({max(1, d - 1), d, n - 1, n, n + 1} if tier != 'quick' else {d, n - 1, n}):
+            for mode in ('single', None):
+                if tier == 'quick' and mode is None and mx != d:
+                    continue
+                for twins in ((False, True) if tier != 'quick' else (False,)):
+                    leaves = [L('ABC'.index(ch)) for ch in pat]
+                    if twins:          # every second occurrence of A is the equal copy
+                        occ = [sum(1 for x in pat[:k] if x == 'A') for k in range(n)]
+                        leaves = [L(3) if (pat[k] == 'A' and occ[k] % 2) else lf for k, lf in enumerate(leaves)]
+                    out.append(mk(T(leaves), wfs3(twins), min=1, max=mx, mode=mode, **STD_CFG))
+        # the same repeats with counts (entries stay n)
+        out.append(mk(T([L('ABC'.index(ch), 1 + k % 3) for k, ch in enumerate(pat)]), std_wfs(), min=1, max=d, mode='single',
+                      **STD_CFG))
+        out.append(mk(T([L('ABC'.index(ch), 1 + k % 3) for k, ch in enumerate(pat)]), std_wfs(), min=1, max=n, mode='single',
+                      **STD_CFG))
+        # advanced mode: a repeated table made of repeats; limits between distinct and entries (upper and lower bound)
+        tab = lambda r: T([L('ABC'.index(ch)) for ch in pat], r=r)
+        for mn, mx in sorted({(1, max(1, d - 1)), (1, d), (1, n - 1), (1, n), (d, n), (d + 1, n + 1), (n, n), (n + 1, n + 2)}):
+            if mn > mx or (tier == 'quick' and (mn, mx) not in ((1, d), (1, n - 1), (n, n), (n + 1, n + 2))):
+                continue
+            out.append(mk(T([tab(2), T([L(1), L(2)], r=3), tab(2)]), std_wfs(), min=mn, max=mx, **STD_CFG))
+    # equal TABLES repeated: the advanced table has 4 entries but 2 distinct sequencer tables
+    X, Y = (lambda: T([L(0), L(1)], r=2)), (lambda: T([L(1), L(1)], r=2))
+    for mn, mx in ((1, 2), (2, 2), (2, 3), (3, 4)):
+        out.append(mk(T([X(), Y(), X(), Y()]), std_wfs(), min=mn, max=mx, **STD_CFG))
+    return out
+
+
+def fam_near_integer(tier):
+    """class (numerics off the grid): a piece whose float duration is a hair beside an integer number of samples.
+    get_waveform_length rounds and accepts a deviation of at most 1e-10 samples: +-2^-40, +-2^-34 (5.8e-11) are played as
+    the nominal count, +-2^-33 (1.16e-10), +-2^-30 are rejected, a piece of 2^-40 samples rounds to 0 (rejected);
+    TablePT and ConstantPT leaves, the odd piece first / last"""
+    out = []
+    good = lambda: wf(192, A=F(1, 8))
+    i = 0
+    for base in (192, 208):
+        for k in (40, 34, 33, 30):
+            for sign in (1, -1):
+                for pt in ('table', 'const'):
+                    i += 1
+                    if tier == 'quick' and i % 2:
+                        continue
+                    odd = dict(wf(base, A=F(1, 4)), eps=str(F(sign, 2 ** k)), pt=pt)
+                    ws = [odd, good()] if i % 4 < 2 else [good(), odd]
+                    out.append(mk(T([L(0), L(1, 2)]), ws, **STD_CFG))
+    for k in (40, 20):
+        for pt in ('table', 'const'):
+            tiny = dict(wf(0, A=F(1, 4)), eps=str(F(1, 2 ** k)), pt=pt)
+            out.append(mk(T([L(0), L(1)]), [good(), tiny], **STD_CFG))
+    return out
+
+
+def fam_measurements(tier):
+    """class: measurements on BOTH a node and its single child (Loop._merge_single_child joins the two lists when the
+    child's count is a fixed 1, otherwise the node is unrolled), incl. a leaf child carrying a measurement"""
+    out = []
+    LM = lambda w, r=1: [r, True, w, []]
+    trees = [T([T([T([L(0), L(1)], meas=True)], r=2, meas=True), L(1)]),
+             T([T([LM(0)], r=2, meas=True), L(1)]),
+             T([T([T([L(0), L(1)], r=2, meas=True)], r=2, meas=True), L(1)]),
+             T([T([T([L(0), L(1)], meas=True)], meas=True), T([L(1)], meas=True)]),
+             T([T([T([LM(0), L(1)], meas=True)], r=3, meas=True), T([LM(1, 2)], r=2, meas=True)], meas=True)]
+    for t in trees:
+        for mn, mx in ((1, 8), (2, 4)):
+            for build in ('direct', 'template'):
+                out.append(mk(t, std_wfs(), build=build, min=mn, max=mx, **STD_CFG))
+    return out
+
+
 FAMILIES = [
+    ('measurements', fam_measurements),
+    ('near_integer', fam_near_integer),
+    ('same_source', fam_same_source),
+    ('repeats_vs_limits', fam_repeats_vs_limits),
     ('short_after_repeated', fam_short_after_repeated),
     ('piece_lengths', fam_piece_lengths),
     ('table_patterns', fam_table_patterns),
